@@ -544,7 +544,16 @@ func runClient(c caseT) (o outcome) {
 	}
 	defer conn.Close()
 	ka, kb := keys.Get("a", 2048), keys.Get("b", 2048)
-	cfg := &uasc.Config{SecurityPolicyURI: pol.URI, SecurityMode: ua.MessageSecurityMode(mode), Lifetime: uint32(c.LifetimeMS), RequestTimeout: requestTimeout,
+	// the client takes min(requested, revised): request the largest lifetime of
+	// the case, so that every per-token lifetime of the reference server is a
+	// downward revision and really takes effect
+	reqLife := c.LifetimeMS
+	for _, l := range c.LifesMS {
+		if l > reqLife {
+			reqLife = l
+		}
+	}
+	cfg := &uasc.Config{SecurityPolicyURI: pol.URI, SecurityMode: ua.MessageSecurityMode(mode), Lifetime: uint32(reqLife), RequestTimeout: requestTimeout,
 		Certificate: ka.Cert, LocalKey: ka.Key, RemoteCertificate: kb.Cert, Thumbprint: uapolicy.Thumbprint(kb.Cert)}
 	errch := make(chan error, 64)
 	sc, err := uasc.NewSecureChannel(endpoint, conn, cfg, errch)
